@@ -985,4 +985,126 @@ theorem disjoint_of_no_common (r1 r2 : LineRange) (h1 : lo r1 ≤ hi r1) (h2 : l
         simp only [covers, Bool.and_eq_true, decide_eq_true_eq]
         omega
 
+
+/-! ### `WF` survives the serializer's normalisation -/
+
+theorem lo_eq_start (r : LineRange) : lo r = r.start := by cases r <;> rfl
+
+theorem sortByStart_of_sorted (l : List LineRange)
+    (h : l.Pairwise (fun a b => a.start ≤ b.start)) : sortByStart l = l := by
+  induction l with
+  | nil => rfl
+  | cons r rs ih =>
+    rw [List.pairwise_cons] at h
+    rw [sortByStart, ih h.2]
+    match rs, h with
+    | [], _ => rfl
+    | x :: xs, h =>
+      have : r.start ≤ x.start := h.1 x (by simp)
+      simp [sortByStart.insertFront, this]
+
+theorem entryWF_sorted (n : Nat) (m : NoteMeta) (e : Entry) (h : entryWF n m e = true) :
+    sortByStart e.ranges = e.ranges := by
+  simp only [entryWF, Bool.and_eq_true] at h
+  obtain ⟨⟨⟨hr, hs⟩, _⟩, _⟩ := h
+  rw [List.all_eq_true] at hr
+  have hp := sortedDisjoint_pairwise e.ranges hs (fun r hr' => rangeWF_le n r (hr r hr'))
+  apply sortByStart_of_sorted
+  refine List.Pairwise.imp_of_mem ?_ hp
+  intro a b ha _ hab
+  have := rangeWF_le n a (hr a ha)
+  rw [← lo_eq_start, ← lo_eq_start]; omega
+
+theorem flatMap_live (l : List Entry) :
+    (l.filter (fun e => !e.ranges.isEmpty)).flatMap (fun e => e.ranges) = l.flatMap (fun e => e.ranges) := by
+  induction l with
+  | nil => rfl
+  | cons e l ih =>
+    rw [List.filter_cons]
+    by_cases he : e.ranges.isEmpty = true
+    · have : e.ranges = [] := by simpa using he
+      simp [ih, this]
+    · simp [he, ih]
+
+theorem map_normEntry_id (l : List Entry) (h : ∀ e ∈ l, sortByStart e.ranges = e.ranges) :
+    l.map normEntry = l := by
+  induction l with
+  | nil => rfl
+  | cons e l ih =>
+    rw [List.map_cons, ih (fun x hx => h x (by simp [hx]))]
+    have := h e (by simp)
+    simp [normEntry, this]
+
+/-- when every entry's ranges are already ascending, `normalise` only drops range-less
+    entries and entry-less files -/
+theorem normalise_eq (fs : List FileAtt)
+    (h : ∀ f ∈ fs, ∀ e ∈ f.entries, sortByStart e.ranges = e.ranges) :
+    normalise fs = (fs.filter (fun f => !(liveEntries f).isEmpty)).map
+      (fun f => { f with entries := liveEntries f }) := by
+  unfold normalise
+  apply List.map_congr_left
+  intro f hf
+  have hf' := (List.mem_filter.1 hf).1
+  rw [map_normEntry_id]
+  intro e he
+  exact h f hf' e (List.mem_filter.1 he).1
+
+theorem rangesOfPath_normalise (fs : List FileAtt) (p : Str)
+    (h : ∀ f ∈ fs, ∀ e ∈ f.entries, sortByStart e.ranges = e.ranges) :
+    rangesOfPath (normalise fs) p = rangesOfPath fs p := by
+  rw [normalise_eq fs h]
+  clear h
+  induction fs with
+  | nil => rfl
+  | cons f fs ih =>
+    unfold rangesOfPath at ih ⊢
+    rw [List.filter_cons]
+    by_cases hl : (!(liveEntries f).isEmpty) = true
+    · rw [if_pos hl, List.map_cons, List.filter_cons, List.filter_cons]
+      by_cases hp : (f.path == p) = true
+      · simp only [hp, if_true, List.flatMap_cons, ih]
+        congr 1
+        exact flatMap_live f.entries
+      · simp only [hp]
+        exact ih
+    · rw [if_neg hl, ih, List.filter_cons]
+      by_cases hp : (f.path == p) = true
+      · simp only [hp, if_true, List.flatMap_cons]
+        have hemp : liveEntries f = [] := by simpa using hl
+        have : f.entries.flatMap (fun e => e.ranges) = [] := by
+          rw [← flatMap_live, ← liveEntries.eq_1 f, hemp]; rfl
+        rw [this]; rfl
+      · simp [hp]
+
+theorem WF_normalise (fs : List FileAtt) (m : NoteMeta) (c : CommitFacts) (h : WF ⟨fs, m⟩ c = true) :
+    WF ⟨normalise fs, m⟩ c = true := by
+  simp only [WF, Bool.and_eq_true, List.all_eq_true] at h ⊢
+  obtain ⟨hf, hb⟩ := h
+  have hsorted : ∀ f ∈ fs, ∀ e ∈ f.entries, sortByStart e.ranges = e.ranges := by
+    intro f hfm e he
+    have := hf f hfm
+    unfold fileWF at this
+    split at this
+    · cases this
+    · rename_i n _
+      simp only [Bool.and_eq_true, List.all_eq_true] at this
+      exact entryWF_sorted n m e (this.1 e he)
+  refine ⟨?_, hb⟩
+  intro f' hf'
+  rw [normalise_eq fs hsorted] at hf'
+  simp only [List.mem_map, List.mem_filter] at hf'
+  obtain ⟨f, ⟨hfm, _⟩, rfl⟩ := hf'
+  have := hf f hfm
+  unfold fileWF at this ⊢
+  simp only
+  split at this
+  · cases this
+  · rename_i n hn
+    simp only [Bool.and_eq_true, List.all_eq_true] at this ⊢
+    refine ⟨?_, ?_⟩
+    · intro e he
+      exact this.1 e (List.mem_filter.1 he).1
+    · rw [rangesOfPath_normalise fs f.path hsorted]
+      exact this.2
+
 end GitAi.NotesTree
